@@ -30,11 +30,13 @@ def m_c02(sc, res):
             continue
         at = op.get("at", "")
         wr = written_by_hist(io_, at)
-        if at not in wr:
-            fails.append(_f(f"create at '{at}' wrote no generation for its own history (exit {io_['exit']})", sc))
-            continue
-        rootm = wr[at][0][1]
-        patterns = rootm["ignore"]
+        if at in wr:
+            patterns = wr[at][0][1]["ignore"]
+        else:
+            # nothing written for the command's own history: legitimate only when -sf selected no file at all
+            hb = O.histories(io_["asc_before"])
+            prev = O.parse_manifest_bytes(hb[at]["gens"][-1][2])["ignore"] if at in hb and hb[at]["gens"] else [".DS_Store", "ascmhl", "ascmhl/"]
+            patterns = list(prev) + [x for x in list(op.get("i", [])) + list(op.get("ii", [])) if x not in prev]
         media = io_["media_after"]
         vis = O.visible(media, at, patterns)  # relative to at
         roots = O.history_roots(io_["asc_before"]) | {at}
@@ -64,6 +66,9 @@ def m_c02(sc, res):
                             expected[O.join(at, p)] = v
                 else:
                     expected[full] = media[full][0]
+        if at not in wr and (expected or not sf):
+            fails.append(_f(f"create at '{at}'{' -sf '+str(sf) if sf else ''} wrote no generation for its own history (exit {io_['exit']}) although {len(expected)} entries were to be recorded", sc))
+            continue
         for p, v in expected.items():
             recs = got.get(p, [])
             if len(recs) != 1:
